@@ -18,7 +18,9 @@ def serve(handler, budget_s=120):
         signal.setitimer(signal.ITIMER_VIRTUAL, budget_s)
         try:
             with warnings.catch_warnings(record=True) as w:
-                warnings.simplefilter("always")
+                # "always" is APPENDED: it catches everything the filters in force let through (repeats included), while a filter installed
+                # in front of it -- by the package itself at import time, say -- still silences what it silences for a user
+                warnings.simplefilter("always", append=True)
                 res = handler(job)
                 if isinstance(res, dict):
                     res.setdefault("warnings", [str(x.message) for x in w if not issubclass(x.category, (DeprecationWarning, SyntaxWarning))])
